@@ -241,7 +241,7 @@ func storeKey(kind string, h uint64) string {
 type blockFacts struct {
 	sh, d facts
 	sig   []byte
-	nilKA bool // the saved signer has an address and no key
+	nilKA *types.SignedHeader // non-nil: the saved signer has an address and no key; an untouched copy of what was saved
 }
 
 func runStore(c *Case, o *caseOut) {
@@ -379,13 +379,14 @@ func runStore(c *Case, o *caseOut) {
 			}
 		}
 	}
-	judgeWritten := func(what, t string, was facts, nilKA bool, got interface{}, gotOK bool) {
+	judgeWritten := func(what, t string, was facts, nilKA *types.SignedHeader, got interface{}, gotOK bool) {
 		if !gotOK {
 			o.fail("store-path-failed", what+" fails although the key was written successfully")
 			return
 		}
 		if d := was.diff(factsOf(t, got)); d != "" {
-			if nilKA {
+			if sh, isSH := got.(*types.SignedHeader); nilKA != nil && isSH && sh.Signer.PubKey == nil && len(sh.Signer.Address) == 0 &&
+				eqHeader(&nilKA.Header, &sh.Header) && bytes.Equal(nilKA.Signature, sh.Signature) { // exactly the repaired defect: only the signer is lost
 				o.fail("signer-address-without-pubkey-lost", "store path: Signer{Address: non-empty, PubKey: nil} read back as the empty Signer")
 			} else {
 				o.fail("store-path-value-differs", fmt.Sprintf("%s does not return the value that was written: %s", what, d))
@@ -419,7 +420,7 @@ func runStore(c *Case, o *caseOut) {
 			}
 			judgeRead("GetState", "state", &got, err == nil, storeKey("s", 0), &fresh, ferr == nil)
 			if lastState != nil {
-				judgeWritten("GetState", "state", *lastState, false, &got, err == nil)
+				judgeWritten("GetState", "state", *lastState, nil, &got, err == nil)
 			}
 			scribbleState(&got)
 			scribbleState(&fresh)
@@ -429,7 +430,10 @@ func runStore(c *Case, o *caseOut) {
 			sh, d := op.SH.build(), op.D.build()
 			sig := types.Signature(bb(op.Sig))
 			opTerm = fmt.Sprintf("SSaveBlock %s %s %s", ref("sh", sh), ref("data", d), bref(sig))
-			was := blockFacts{factsOf("sh", sh), factsOf("data", d), append([]byte{}, sig...), hasNilKeyWithAddress(sh)}
+			was := blockFacts{factsOf("sh", sh), factsOf("data", d), append([]byte{}, sig...), nil}
+			if hasNilKeyWithAddress(sh) {
+				was.nilKA = op.SH.build()
+			}
 			h := sh.Height()
 			err := st.SaveBlockData(ctx, sh, d, &sig)
 			trashSH(sh)
@@ -488,7 +492,7 @@ func runStore(c *Case, o *caseOut) {
 					o.fail("store-path-failed", what+" fails although the block was saved successfully")
 				} else {
 					judgeWritten(what+" header", "sh", w.sh, w.nilKA, gh, true)
-					judgeWritten(what+" data", "data", w.d, false, gd, true)
+					judgeWritten(what+" data", "data", w.d, nil, gd, true)
 				}
 			}
 			if err == nil {
